@@ -1,10 +1,14 @@
 #!/bin/bash
-# tools/seedrun.sh <seeded-dir-name> <check id> [more ids]: apply a seeded mutant to /repo, run checks (quick), revert.
-D=/verif/seeded/$1; shift
-[ -z "$(git -C /repo status --porcelain)" ] || { echo "/repo not clean"; exit 2; }
-git -C /repo apply $D/patch.diff || exit 2
-trap 'git -C /repo checkout -- . ' EXIT
+# tools/seedrun.sh <seeded-dir-name> <check id> [more ids]
+# Runs checks (quick) against a seeded mutant. The patch is applied to a scratch worktree of /repo HEAD
+# (VERIF_REPO points the checks at it), so /repo itself stays untouched and other work can go on;
+# evidence/replays of these runs go to a scratch dir, not to /verif/evidence.
+N=$1; D=/verif/seeded/$N; shift
+W=/tmp/sr-$N-$$; O=/var/tmp/sr-out-$N-$$
+git -C /repo worktree add -q --detach $W HEAD || exit 2
+git -C $W apply $D/patch.diff || { git -C /repo worktree remove --force $W; exit 2; }
 for id in "$@"; do
-  (cd /verif && timeout 1500 ./check $id --tier quick > /var/tmp/seedrun-$$.log 2>&1; rc=$?; echo "SEEDRUN $(basename $D) check=$id exit=$rc $(grep -c '^VIOLATION' /var/tmp/seedrun-$$.log) violation lines; $(grep '^VIOLATION' /var/tmp/seedrun-$$.log | head -2 | tr '\n' ' ')")
+  (cd /verif && VERIF_REPO=$W VERIF_OUT=$O timeout 1800 ./check $id --tier quick > $O.log 2>&1; rc=$?
+   echo "SEEDRUN $N check=$id exit=$rc violations=$(grep -c '^VIOLATION' $O.log): $(grep -A1 '^VIOLATION' $O.log | grep 'key=' | head -3 | cut -c1-220 | tr '\n' ' ')")
 done
-rm -f /var/tmp/seedrun-$$.log
+git -C /repo worktree remove --force $W; rm -rf $O $O.log
